@@ -209,3 +209,59 @@ def mentions_lorem(abbr, user_config):
         if isinstance(v, str) and 'lorem' in v.lower():
             return True
     return False
+
+
+def run_cases(ctx, model, cases, label, oracle=None, mode='expand', compare_model=True):
+    """cases: list of (abbr, user_config, meta).  Runs the implementation on every case, the
+    property oracle (if any) on every implementation result, and the extracted model on every
+    case it covers; compares model and implementation on the observable of `mode`.
+    Returns list of implementation results."""
+    impl = []
+    wires = []
+    idx = []
+    for k, (abbr, cfg, meta) in enumerate(cases):
+        r = impl_events(abbr, cfg) if mode == 'events' else impl_expand(abbr, cfg)
+        impl.append(r)
+        ctx.count_eval()
+        ctx.cover('%s:%s' % (label, r[0] if r[0] != 'err' else 'err%d' % r[1]))
+        if oracle is not None:
+            bad = oracle(abbr, cfg, meta, r)
+            if bad:
+                ctx.property_failure('%s:%s|%s' % (label, abbr, canon_cfg(cfg)),
+                                     '%s expand(%r, %s): %s' % (label, abbr, canon_cfg(cfg), bad),
+                                     {'component': label, 'abbr': abbr, 'config': cfg, 'impl': repr(r)[:500], 'why': bad})
+        if compare_model and model is not None and not mentions_lorem(abbr, cfg):
+            try:
+                wires.append([3 if mode == 'events' else 2] + enc_config(cfg) + enc_str(abbr))
+                idx.append(k)
+            except NotModelled:
+                ctx.cover(label + ':not-modelled')
+    dis = 0
+    if wires:
+        outs = model.run(wires)
+        for k, w in zip(idx, outs):
+            abbr, cfg, meta = cases[k]
+            if mode == 'events':
+                mo = decode_events(w)
+                r = impl[k]
+                im = ('ok', [tuple(e) for e in r[2]]) if r[0] == 'ok' else r
+            else:
+                mo = decode_expand(w)
+                im = impl[k]
+            if im[0] == 'recursion':
+                continue
+            if mo != im:
+                dis += 1
+                if dis <= 5:
+                    ctx.say('DISAGREE %s %r cfg=%s\n  impl  %r\n  model %r' % (label, abbr, canon_cfg(cfg), str(im)[:400], str(mo)[:400]))
+                    ctx.broken.append({'kind': 'correspondence', 'file': 'markup-%s' % label, 'input': abbr,
+                                       'config': canon_cfg(cfg), 'impl': repr(im)[:300], 'model': repr(mo)[:300]})
+    c = ctx.cov['correspondence'].setdefault('markup_' + label, {'cases': 0, 'disagreements': 0})
+    c['cases'] += len(wires)
+    c['disagreements'] += dis
+    return impl
+
+
+def canon_cfg(cfg):
+    import json
+    return json.dumps(cfg, sort_keys=True, default=str)
